@@ -336,6 +336,8 @@ static void part_shape(void)
 	int old_td = xtd;
 	for (cur = 0x20; cur < 0xff00; cur++) {
 		int ip, in, dp, dn, intab = 0, i;
+		if ((cur & 0xff) == 0x20)
+			nv_guard(120, "c18-hang", "shaping of the letters from U+%04X", cur);
 		if (cur == 0x80)
 			cur = 0x600;
 		if (cur == 0x700)
